@@ -165,12 +165,12 @@ func c12Requests(c *core.Ctx, line string) []*gen.Req {
 
 // c12Answers queries all engines over the list contents and returns a
 // canonical description of the answers.
-func c12Answers(c *core.Ctx, w c12Witness, content string, reqs []*gen.Req) (out []string, ok bool) {
+func c12Answers(c *core.Ctx, w c12Witness, reqs []*gen.Req, content ...string) (out []string, ok bool) {
 	ok = !c.Guard("engines:"+w.What, nil, w, func() {
-		eng := urlfilter.NewEngine(util.Storage(content))
-		ne := urlfilter.NewNetworkEngine(util.Storage(content))
-		de := urlfilter.NewDNSEngine(util.Storage(content))
-		ce := urlfilter.NewCosmeticEngine(util.Storage(content))
+		eng := urlfilter.NewEngine(util.Storage(content...))
+		ne := urlfilter.NewNetworkEngine(util.Storage(content...))
+		de := urlfilter.NewDNSEngine(util.Storage(content...))
+		ce := urlfilter.NewCosmeticEngine(util.Storage(content...))
 		for _, q := range reqs {
 			if q.HostnameReq {
 				res, m := de.MatchRequest(&urlfilter.DNSRequest{Hostname: q.Host, DNSType: q.DNSType, ClientName: q.ClientName, ClientIP: q.ClientIP, SortedClientTags: q.Tags})
@@ -289,7 +289,7 @@ func FuzzLineC12(c *core.Ctx, line string) {
 	var valid, noise []string
 	c12CheckLine(c, line, 1, &valid, &noise)
 	reqs := c12Requests(c, line)
-	c12Answers(c, c12Witness{Lines: []string{line}, What: "single-line list"}, line+"\n", reqs)
+	c12Answers(c, c12Witness{Lines: []string{line}, What: "single-line list"}, reqs, line+"\n")
 }
 
 // FuzzValueC10 is the entry point of the native fuzz target.
@@ -326,7 +326,7 @@ func c12Run(c *core.Ctx, idx int) {
 	// Engines on a list containing all the lines of the batch.
 	reqs := c12Requests(c, batch[0])
 	content := util.Lines(batch)
-	if _, ok := c12Answers(c, c12Witness{Lines: batch, What: "batch"}, content, reqs); ok {
+	if _, ok := c12Answers(c, c12Witness{Lines: batch, What: "batch"}, reqs, content); ok {
 		c.Event("engine_batches", 1)
 	}
 
@@ -358,19 +358,24 @@ func c12Run(c *core.Ctx, idx int) {
 		)
 	}
 	base := util.Lines(valid)
-	a0, ok0 := c12Answers(c, c12Witness{Lines: valid, What: "inert-base"}, base, reqs)
+	a0, ok0 := c12Answers(c, c12Witness{Lines: valid, What: "inert-base"}, reqs, base)
 	if !ok0 {
 		return
 	}
 	ext := c08Insert(c, valid, cleanNoise)
-	variants := map[string]string{
-		"noise-inserted":   util.Lines(ext),
-		"crlf":             strings.Join(valid, "\r\n") + "\r\n",
-		"no-final-newline": strings.Join(valid, "\n"),
-		"noise+crlf":       strings.Join(ext, "\r\n"),
+	variants := map[string][]string{
+		"noise-inserted":   {util.Lines(ext)},
+		"crlf":             {strings.Join(valid, "\r\n") + "\r\n"},
+		"no-final-newline": {strings.Join(valid, "\n")},
+		"noise+crlf":       {strings.Join(ext, "\r\n")},
+		// Inert lines that form a list of their own, and an empty list, before
+		// and after the list with the rules.
+		"noise-only-list-first":       {util.Lines(cleanNoise[:min(len(cleanNoise), 6)]), base},
+		"empty-list-first":            {"", base},
+		"empty-and-noise-lists-after": {base, "", util.Lines(cleanNoise[:min(len(cleanNoise), 3)])},
 	}
 	for name, content := range variants {
-		a1, ok1 := c12Answers(c, c12Witness{Lines: ext, What: "inert-" + name}, content, reqs)
+		a1, ok1 := c12Answers(c, c12Witness{Lines: ext, What: "inert-" + name}, reqs, content...)
 		if !ok1 {
 			continue
 		}
